@@ -1,6 +1,122 @@
-"""Checks for the wire-level properties C01/C02 (TLA+ layout specification + TLC enumeration)."""
-PROPS = {}
+"""Checks for the wire-level properties C01/C02: the MQTT 5 wire semantics are specified in TLA+
+(MqttWire.tla); TLC enumerates the case spaces (WireGenTx / WireGenRx) and writes, per case, what the
+specification says must come out; the harness drives every case through the real client."""
+import os, sys, json, time, subprocess, glob, concurrent.futures, hashlib
+import vlib, session_checks
+
+PROPS = {"C01": dict(gen="WireGenTx", cmd="wiretx", prefix="tx_"),
+         "C02": dict(gen="WireGenRx", cmd="wirerx", prefix="rx_")}
+
+
+def tlc_generate(module, outdir, tier):
+    env = dict(os.environ, OUTDIR=outdir, TIER=tier, JAVA_TOOL_OPTIONS="-Xss256m -Xmx8g")
+    md = os.path.join(vlib.OUT, "md", "%s.%d" % (module, os.getpid()))
+    cmd = ["timeout", "1500", "tlc", "-workers", "1", "-metadir", md, "-cleanup", "-noGenerateSpecTE", "-config", module + ".cfg", module + ".tla"]
+    t0 = time.time()
+    r = subprocess.run(cmd, cwd=vlib.SPEC, env=env, stdout=subprocess.PIPE, stderr=subprocess.STDOUT, text=True)
+    import shutil
+    shutil.rmtree(md, ignore_errors=True)
+    if "Model checking completed. No error has been found" not in r.stdout:
+        sys.stderr.write(r.stdout[-3000:])
+        raise vlib.ToolError("TLC failed to enumerate %s" % module)
+    return time.time() - t0
 
 
 def run(prop, tier):
-    raise NotImplementedError
+    t0 = time.time()
+    cfg = PROPS[prop]
+    modes = ("dev", "release") if tier == "thorough" else ("dev",)
+    bins = vlib.build(modes)
+    d = vlib.outdir(prop)
+    for f in glob.glob(os.path.join(d, "*")):
+        os.remove(f)
+    gen_wall = tlc_generate(cfg["gen"], d, tier)
+    case_files = sorted(glob.glob(os.path.join(d, cfg["prefix"] + "*.ndjson")))
+    ncases = sum(sum(1 for _ in open(f)) for f in case_files)
+    if ncases == 0:
+        raise vlib.ToolError("no cases generated")
+    shards = 8
+    results = []
+    def one(args):
+        mode, i = args
+        out = os.path.join(d, "res-%s-%d.ndjson" % (mode, i))
+        vlib.pvh(bins[mode], [cfg["cmd"], "--dir", d, "--shard", i, "--shards", shards, "--out", out])
+        return out
+    with concurrent.futures.ThreadPoolExecutor(max_workers=8) as ex:
+        outs = list(ex.map(one, [(m, i) for m in modes for i in range(shards)]))
+    fails, tool, n, kinds = [], [], 0, {}
+    samples = []
+    for o in outs:
+        for line in open(o):
+            r = json.loads(line)
+            n += 1
+            k = r.get("kind") or r.get("t")
+            kinds[k] = kinds.get(k, 0) + 1
+            if not r["ok"]:
+                (tool if str(r.get("why", "")).startswith("TOOL") else fails).append(r)
+            elif len(samples) < 4 and r["i"] % 997 == 3:
+                samples.append(r)
+    if tool:
+        print("TOOL-ERROR:", tool[0]["why"])
+        return 2
+    # C01 also says: the wire is a concatenation of whole packets in submission order however the transport
+    # fragments or delays writes -> random walks with partial / blocked writes, validated by PosterTrace
+    extra_runs, extra_viol, tstats = 0, [], {"states": 0}
+    if prop == "C01":
+        fam = session_checks.walkfam("wake", "wake", 160, 2000)
+        pairs = session_checks.gen_family(bins, fam, tier, d)
+        verdicts, tstats = vlib.validate_many([p[0] for p in pairs], prop, workers=8)
+        extra_runs = len(verdicts)
+        script_of = dict(pairs)
+        for key, v in verdicts.items():
+            if v is not None and "C01" in (v[0] if isinstance(v[0], list) else [v[0]]):
+                extra_viol.append((key, v, script_of.get(key[0])))
+    findings = vlib.load_findings()
+    known, viol = [], []
+    for r in fails:
+        f = None
+        for kf in findings:
+            if kf["property"] == prop and kf.get("status") == "open" and kf["clause"] in r["why"]:
+                f = kf
+        (known if f else viol).append((r, f))
+    printed = set()
+    for r, f in known:
+        if f["id"] not in printed:
+            print("KNOWN-FINDING: property=%s %s" % (prop, f["what"]))
+            printed.add(f["id"])
+    rc = 0
+    if viol or extra_viol:
+        os.makedirs(os.path.join(vlib.OUT, "replay"), exist_ok=True)
+        if viol:
+            r = viol[0][0]
+            path = os.path.join(vlib.OUT, "replay", "%s-case-%d.json" % (prop, r["i"]))
+            json.dump(r, open(path, "w"), indent=1)
+            why = r["why"]
+        else:
+            key, v, sp = extra_viol[0]
+            path = vlib.write_replay(prop, key[2], key[0], sp, key[1], v)
+            why = v[1]
+        print("VIOLATION property=%s replay=%s" % (prop, path))
+        print("  %s (%d violating cases)" % (why, len(viol) + len(extra_viol)))
+        rc = 1
+    if not samples:
+        samples = [{"note": "no sample picked"}]
+    cov = {
+        "evaluations": n + extra_runs,
+        "distinct_nontrivial": ncases,
+        "rule": "cases enumerated by TLC from %s.tla (every case is a distinct option record / server packet; all are non-trivial in the sense that "
+                "the specification prescribes a complete expected packet / accessor record for each); each case runs through the real client "
+                "once per build mode" % cfg["gen"],
+        "samples": samples,
+        "cases_by_kind": kinds,
+        "tlc_enumeration_wall_s": round(gen_wall, 1),
+        "build_modes": list(modes),
+        "fragmented_write_runs_validated": extra_runs,
+        "trace_validation_states": tstats.get("states", 0),
+        "exhaustive": False,
+    }
+    vlib.write_evidence(prop, tier, "exploration", cov, time.time() - t0, len(viol) + len(extra_viol),
+                        ["MqttWire.tla transcribes the MQTT 5 standard correctly (it was written from the standard, not from poster's sources)",
+                         "the harness's independent codec and filler expansion are correct (cross-checked against the specification's lengths on every case)"])
+    print("%s %s: %d cases (%d evaluations), %d known, %d violations, %.0fs" % (prop, tier, ncases, n + extra_runs, len(known), len(viol) + len(extra_viol), time.time() - t0))
+    return rc
